@@ -1508,6 +1508,10 @@ func (p *Prog) expandLits(ls []Lit, keep bool) []Lit {
 			out = append(out, l)
 			continue
 		}
+		if _, isGetter := getterField(cl); isGetter {
+			out = append(out, l) // a trivial accessor already reads as the field itself
+			continue
+		}
 		h := cl.Common().StaticCallee()
 		if !p.PrivateHelper(h) {
 			out = append(out, l)
@@ -1642,6 +1646,13 @@ func (p *Prog) nilOutcomeLits(v ssa.Value, wantNil bool) ([]Lit, bool) {
 			return nil, false
 		}
 		feasible := false
+		if idx < len(r.Results) && knownNonNil(r.Results[idx], r) {
+			// the returned value itself is guarded non-nil here, whatever flows into it
+			if wantNil {
+				continue
+			}
+			ops = []ssa.Value{r.Results[idx]}
+		}
 		for _, o := range ops {
 			switch {
 			case IsNilConst(o):
